@@ -431,3 +431,110 @@ package semver
 //@           result0.min != nil && result0.max == max && compare(result0.min, result0.max) < 0)
 //@   ensures imp(result1 == nil && result0.rank == empty, (minOpen || maxOpen))
 //@   property C09
+
+// ---------------------------------------------------------------------------
+// C02 (comparator half): the ordering follows the published rules, stated from
+// the documents over the parsed representation.
+// semver.org §11 (Default, Cargo, Go, NPM, Composer; NuGet SemVer2 differs only
+// in case-insensitive identifiers):
+//   11.2 major, minor, patch compared numerically, first difference decides;
+//   11.3 a pre-release version has lower precedence than the normal version;
+//   11.4.1 numeric identifiers compare numerically; 11.4.3 numeric identifiers
+//   are lower than non-numeric ones; 11.4.2 non-numeric identifiers compare in
+//   ASCII order; 11.4.4 a larger set of fields wins when all preceding are equal.
+
+//@ lemma semverorg.11_2.numbers
+//@   vars a, b *Version; i int
+//@   unfold compare
+//@   requires plain(a) && plain(b) && sameSys(a, b) && a != b && 0 <= i
+//@   requires forall(k, 0, i, a.getNum(k) == b.getNum(k)) && a.getNum(i) < b.getNum(i)
+//@   requires i < len(a.num) || i < len(b.num)
+//@   ensures compare(a, b) < 0
+//@   property C02
+
+//@ lemma semverorg.11_3.prerelease_lower
+//@   vars a, b *Version
+//@   unfold compare
+//@   requires plain(a) && plain(b) && sameSys(a, b) && a != b
+//@   requires forall(k, 0, len(a.num) + len(b.num), a.getNum(k) == b.getNum(k))
+//@   requires len(a.pre) > 0 && len(b.pre) == 0
+//@   ensures compare(a, b) < 0
+//@   property C02
+
+//@ lemma semverorg.11_4.identifiers
+//@   vars sys System; x, y string
+//@   unfold compareElem isNumeric
+//@   requires sys != NuGet
+//@   ensures imp(fst(isNumeric(sys, x)) < fst(isNumeric(sys, y)) && snd(isNumeric(sys, x)) && snd(isNumeric(sys, y)), compareElem(sys, x, y) < 0)
+//@   ensures imp(snd(isNumeric(sys, x)) && !snd(isNumeric(sys, y)), compareElem(sys, x, y) < 0)
+//@   ensures imp(!snd(isNumeric(sys, x)) && !snd(isNumeric(sys, y)) && x < y, compareElem(sys, x, y) < 0)
+//@   ensures imp(!snd(isNumeric(sys, x)) && !snd(isNumeric(sys, y)) && x == y, compareElem(sys, x, y) == 0)
+//@   property C02
+
+//@ lemma semverorg.11_4_4.longer_wins
+//@   vars a, b *Version
+//@   unfold comparePrerelease
+//@   requires a != nil && b != nil && a.sys == b.sys && len(a.pre) < len(b.pre)
+//@   requires forall(k, 0, len(a.pre), compareElem(a.sys, a.pre[k], b.pre[k]) == 0)
+//@   ensures comparePrerelease(a, b) < 0
+//@   property C02
+
+//@ lemma semverorg.11_4.first_difference
+//@   vars a, b *Version; i int
+//@   unfold comparePrerelease
+//@   requires a != nil && b != nil && a.sys == b.sys && 0 <= i && i < len(a.pre) && i < len(b.pre)
+//@   requires forall(k, 0, i, compareElem(a.sys, a.pre[k], b.pre[k]) == 0) && compareElem(a.sys, a.pre[i], b.pre[i]) < 0
+//@   ensures comparePrerelease(a, b) < 0
+//@   property C02
+
+// PEP 440: epoch first, then the release segment, then
+//   .devN < aN < bN < rcN < (final) < local < .postN   (rank of the attachment).
+//@ lemma pep440.epoch_first
+//@   vars a, b *Version
+//@   unfold compare (*pep440Extension).compare
+//@   requires pypi(a) && pypi(b) && a != b
+//@   requires a.ext.(*pep440Extension).ext != nil && b.ext.(*pep440Extension).ext != nil
+//@   requires a.ext.(*pep440Extension).ext.epoch < b.ext.(*pep440Extension).ext.epoch
+//@   ensures compare(a, b) < 0
+//@   property C02
+
+//@ lemma pep440.rank_order
+//@   vars p *pep440
+//@   unfold (*pep440).rank
+//@   requires p != nil
+//@   ensures imp(p.pre == "a", p.rank() == pep440Alpha) && imp(p.pre == "b", p.rank() == pep440Beta) && imp(p.pre == "rc", p.rank() == pep440Prerelease)
+//@   ensures imp(p.pre == "" && p.postPresent, p.rank() == pep440Post)
+//@   ensures imp(p.pre == "" && !p.postPresent && p.devPresent, p.rank() == pep440Dev)
+//@   ensures imp(p.pre == "" && !p.postPresent && !p.devPresent && p.local == "", p.rank() == pep440Empty)
+//@   ensures pep440Dev < pep440Alpha && pep440Alpha < pep440Beta && pep440Beta < pep440Prerelease && pep440Prerelease < pep440Empty && pep440Empty < pep440Local && pep440Local < pep440Post
+//@   property C02
+
+//@ lemma pep440.rank_decides
+//@   vars a, b *Version
+//@   unfold compare (*pep440Extension).compare
+//@   requires pypi(a) && pypi(b) && a != b
+//@   requires a.ext.(*pep440Extension).ext != nil && b.ext.(*pep440Extension).ext != nil
+//@   requires a.ext.(*pep440Extension).ext.epoch == b.ext.(*pep440Extension).ext.epoch
+//@   requires forall(k, 0, len(a.num) + len(b.num), a.getNum(k) == b.getNum(k))
+//@   requires a.ext.(*pep440Extension).ext.rank() < b.ext.(*pep440Extension).ext.rank()
+//@   ensures compare(a, b) < 0
+//@   property C02
+
+// Gem::Version#<=>: release segments numerically, first difference decides;
+// a version with prerelease segments is lower than the same numbers without.
+//@ lemma gem.numbers_first
+//@   vars a, b *Version; i int
+//@   unfold compare (*gemExtension).compare
+//@   requires gem(a) && gem(b) && a != b && 0 <= i && (i < len(a.num) || i < len(b.num))
+//@   requires forall(k, 0, i, a.getNum(k) == b.getNum(k)) && a.getNum(i) < b.getNum(i)
+//@   ensures compare(a, b) < 0
+//@   property C02
+
+//@ lemma gem.prerelease_lower
+//@   vars a, b *Version
+//@   unfold compare (*gemExtension).compare
+//@   requires gem(a) && gem(b) && a != b
+//@   requires forall(k, 0, len(a.num) + len(b.num), a.getNum(k) == b.getNum(k))
+//@   requires len(a.ext.(*gemExtension).elems) > 0 && len(b.ext.(*gemExtension).elems) == 0
+//@   ensures compare(a, b) < 0
+//@   property C02
